@@ -208,6 +208,25 @@ fn start_watchdog(a: &Args, limit_s: u64) {
     });
 }
 
+/// Atomic-granular build only: executes every catalogue operation once on a tiny input, outside any
+/// simulation, before the first simulated run of this process.  Process-wide one-time initialisation
+/// (LazyLock / Once, CPU-feature caches) performs atomic operations on first use only; without this the
+/// number of in-job scheduling points of a run - and so its decision log - would depend on which runs the
+/// process happened to execute before (measured: selftest/determinism.sh, 16-shard layout vs 1-shard).
+/// The pristine-process server is forked BEFORE this, so the fresh-process oracle stays pristine.
+#[cfg(feature = "atomic-points")]
+pub fn warm_up() {
+    for op in ops::OPS.iter() {
+        for fam in inputs::FAMILIES.iter().filter(|f| ops::compatible(op, f)).take(2) {
+            let input = inputs::build(&InputSpec { family: fam.to_string(), size: 3, seed: 1 });
+            let _ = std::panic::catch_unwind(std::panic::AssertUnwindSafe(|| exec(op, &input)));
+        }
+    }
+    *PANIC_AT.lock().unwrap_or_else(|p| p.into_inner()) = None;
+}
+#[cfg(not(feature = "atomic-points"))]
+pub fn warm_up() {}
+
 fn exec(op: &OpDef, input: &Input) -> Vec<u8> {
     let mut o = Out::new();
     (op.f)(input, &mut o);
@@ -1043,6 +1062,7 @@ pub fn run(a: &Args) -> i32 {
     install_global_panic_hook();
     // before anything else runs in this process
     let pristine = if a.extra.get("pristine").map(|s| s != "0").unwrap_or(true) { seams::Pristine::start(3 << 30, pristine_handler) } else { None };
+    warm_up();
     let t0 = Instant::now();
     let variants: u64 = a.extra.get("variants").and_then(|s| s.parse().ok()).unwrap_or(3);
     let large: u8 = a.extra.get("large").and_then(|s| s.parse().ok()).unwrap_or(0);
@@ -1354,6 +1374,7 @@ pub fn run(a: &Args) -> i32 {
 
 pub fn replay(a: &Args) -> i32 {
     install_global_panic_hook();
+    warm_up();
     let f = a.file.clone().expect("--file");
     let v: Value = match std::fs::read(&f).ok().and_then(|b| serde_json::from_slice(&b).ok()) {
         Some(v) => v,
@@ -1452,6 +1473,7 @@ pub fn replay(a: &Args) -> i32 {
 /// Debug helper: executes one scenario (JSON file with {"scenario":…, "config":… optional}) once.
 pub fn exec_one(a: &Args) -> i32 {
     install_global_panic_hook();
+    warm_up();
     let f = a.file.clone().expect("--file");
     let v: Value = serde_json::from_slice(&std::fs::read(&f).expect("read")).expect("json");
     let sc: Scenario = serde_json::from_value(v["scenario"].clone()).expect("scenario");
